@@ -45,7 +45,7 @@ RULE = (
     "version that are comparable but unequal, or equal with different raw feature sets, plus distinct cross-version pairs "
     "where the older kind is changed by the upgrade. Thorough tier only: one run of unified_planning/test under M-kindorder; "
     "one evaluation = one operator call judged (suite:M-kindorder:judged); witnesses carry the test id (\"suite\": true) and are "
-    "replayed by re-running that test file under the monitor; inconclusive if the suite ran and fewer than 1000 calls were judged."
+    "replayed by re-running that test file under the monitor; inconclusive if the suite ran and fewer than 3000 calls were judged."
 )
 ASSUMPTIONS = [
     "the set model vk/ref/lattice.py states the intended meaning of a kind: the features valid at its version",
@@ -731,5 +731,5 @@ def thresholds(m):
         out.append("fewer than 2000 distinct non-trivial pairs")
     from vk.mon import suite as _suite
 
-    out.extend(_suite.thresholds(c, SUITE[1], 1000))
+    out.extend(_suite.thresholds(c, SUITE[1], 3000))
     return out
